@@ -29,7 +29,7 @@ CLAIMED = {
              "(so the generic theorems apply to it), FIFO and LRU refine their stamped specifications, SIEVE follows the "
              "published hand rule for every queue and hand position (first unvisited record from the hand, wrapping; bits "
              "of passed records cleared; all visited: once around); S3-FIFO queue rules and pop totality (Mem/S3Thms.v); w-TinyLFU pop totality, the admission duel between window and "
-             "probation heads by estimated frequency, and window overflow order (Mem/LfuThms.v); the count-min sketch by kernel-evaluated scenarios.",
+             "probation heads by estimated frequency, and window overflow order (Mem/LfuThms.v); the count-min sketch: an update raises the counted hash by exactly one and lowers no estimate.",
         ref="4/C14", tech="Coq proof (container invariants, spec refinement) + extracted-model correspondence",
         note="float->integer rounding of derived capacities and the count-min bucket hashing are inputs computed "
              "by the harness with the code's own expressions."),
